@@ -21,7 +21,7 @@ ASSUMPTIONS = ["model decoder and model scalar multiplication (vf/model/bls12381
                "condition; everything else is a round trip through the library itself"]
 ENGINE = "hypothesis"
 TECHNIQUE = ("property-based testing (Hypothesis): sign/verify and prove/verify round trips through the public API with an independent-model side condition on the public key")
-_REQ = ["python_-O:cases", "rt:keyword_arguments", "reject:keyword_argument", "rt:sk=curve_parameter_related", "rt:basic", "rt:aug", "rt:pop", "pop", "reject:int", "reject:type", "reject:numeric_twin_after_use", "keygen", "rt:sk=boundary",
+_REQ = ["reject:huge_int", "python_-O:cases", "rt:keyword_arguments", "reject:keyword_argument", "rt:sk=curve_parameter_related", "rt:basic", "rt:aug", "rt:pop", "pop", "reject:int", "reject:type", "reject:numeric_twin_after_use", "keygen", "rt:sk=boundary",
         "rt:sk>=200b", "rt:msg=empty", "rt:msg=56-64", "rt:msg=65-1024"]
 REQUIRED_LABELS = {"quick": _REQ, "thorough": _REQ + ["rt:msg=>1KiB"]}
 
@@ -87,7 +87,13 @@ def o_pop(ctx, case):
 def _bad_value(case):
     if "bad_int" in case:
         return case["bad_int"]
+    if "bad_huge" in case:
+        return sc.HUGE_BAD_SKS[case["bad_huge"]]
     return sc.BAD_SK_OBJECTS[case["bad_obj"]]
+
+
+def _show(case, bad):
+    return case["bad_huge"] if "bad_huge" in case else repr(bad)
 
 
 def _numeric_twin(kind, k):
@@ -137,7 +143,7 @@ def o_reject(ctx, case):
         out = ValidationError
     # any other exception type propagates and is reported as exception:<Type>
     ctx.check(out is ValidationError, "reject", "bad_key_accepted", case,
-              f"{S.__name__}.{entry}({bad!r}) returned {out!r} instead of raising ValidationError")
+              f"{S.__name__}.{entry}({_show(case, bad)}) returned {out!r} instead of raising ValidationError")
     # and with the key passed by its parameter name
     kw = {"SkToPk": lambda: kwcall(S.SkToPk, bad), "Sign": lambda: kwcall(S.Sign, bad, b"message"),
           "PopProve": lambda: kwcall(S.PopProve, bad)}[entry]()
@@ -147,10 +153,10 @@ def o_reject(ctx, case):
         except ValidationError:
             out = ValidationError
         ctx.check(out is ValidationError, "reject", "bad_key_accepted_by_name", case,
-                  f"{S.__name__}.{entry} with the key {bad!r} passed BY NAME returned {out!r} instead of raising ValidationError")
+                  f"{S.__name__}.{entry} with the key {_show(case, bad)} passed BY NAME returned {out!r} instead of raising ValidationError")
         ctx.label("reject:keyword_argument")
-    ctx.label("reject:int" if "bad_int" in case else "reject:type")
-    ctx.nontrivial(("x", suite, entry, repr(bad)))
+    ctx.label("reject:int" if "bad_int" in case else "reject:huge_int" if "bad_huge" in case else "reject:type")
+    ctx.nontrivial(("x", suite, entry, _show(case, bad)))
     ctx.sample(case, f"reject:{entry}:{'int' if 'bad_int' in case else 'type'}")
 
 
@@ -230,6 +236,8 @@ def t_reject(ctx):
                 o_reject(ctx, {"suite": suite, "entry": entry, "bad_int": v})
             for i in range(len(sc.BAD_SK_OBJECTS)):
                 o_reject(ctx, {"suite": suite, "entry": entry, "bad_obj": i})
+            for name in sc.HUGE_BAD_SKS:
+                o_reject(ctx, {"suite": suite, "entry": entry, "bad_huge": name})
     for suite in sc.SUITES:
         for entry in ("SkToPk", "Sign", "PopProve"):
             for kind in ("float", "fraction", "decimal", "complex"):
